@@ -193,6 +193,9 @@ class Acc:
         """Evaluate `case` with the module's evaluator, record, handle failures.
         Returns list of *unexcused* failures (relation, case, detail)."""
         fails = evaluate(self.module, case)
+        if callable(nontrivial):  # decided from what the evaluation observed
+            nontrivial = nontrivial(case)
+        case.pop("_record", None) if isinstance(case, dict) else None
         self.seen(case, nontrivial, classes, distinct)
         bad = []
         for rel, det in fails:
@@ -336,7 +339,7 @@ def run_campaigns(module, tier, seed, findings, only=None, only_relation=None):
 # ---------------------------------------------------------------------------
 
 def hyp_campaign(strategy_fn, to_case, nontrivial_fn=None, classes_fn=None,
-                 examples=(1000, 20000), stateful=False):
+                 examples=(1000, 20000), stateful=False, lazy_nontrivial=False):
     """Build a campaign function running Hypothesis.
 
     strategy_fn(tier) -> strategy;   to_case(value) -> JSON-able case dict.
@@ -358,7 +361,7 @@ def hyp_campaign(strategy_fn, to_case, nontrivial_fn=None, classes_fn=None,
 
         def prop(value):
             case = to_case(value)
-            nt = True if nontrivial_fn is None else nontrivial_fn(case)
+            nt = True if nontrivial_fn is None else (nontrivial_fn if lazy_nontrivial else nontrivial_fn(case))
             cl = () if classes_fn is None else classes_fn(case)
             bad = acc.check(case, nt, cl)
             if shrinking and bad:
